@@ -139,6 +139,12 @@ def random_case(ctx: Ctx) -> dict[str, Any]:
         epoch = (T0, d)
     else:
         epoch = None
+    # … or the whole trace inside a few hundred nanoseconds of a present-day instant (one tick = 1 ns, or 100 ns): the
+    # instants differ by less than a double can tell apart at 1.7e18, integer comparisons must still order them
+    tight = None
+    if epoch is None and r.random() < 0.3:
+        tight = ((1_700_000_000 + r.randrange(10**6)) * 10**9 + r.randrange(10**9), r.choice([1, 1, 100]))
+        ctx.tick("random_tight_ns")
     order = list(range(n))
     r.shuffle(order)
     case = mk_case(parents, ivs, types, cfg, order=order)
@@ -146,6 +152,10 @@ def random_case(ctx: Ctx) -> dict[str, Any]:
         for s in case["spans"]:
             s["start"] = (epoch[0] * NS + s["start"]) // NS * 10**9 - epoch[1]
             s["end"] = (epoch[0] * NS + s["end"]) // NS * 10**9 - epoch[1]
+    if tight:
+        for s in case["spans"]:
+            s["start"] = tight[0] + s["start"] // NS * tight[1]      # mk_case counts in microsecond ticks of NS ns
+            s["end"] = tight[0] + s["end"] // NS * tight[1]
     for s in case["spans"]:
         r.shuffle(s["children"])
     ctx.tick("random")
